@@ -40,6 +40,7 @@ type Pkg struct {
 	YieldFunc  map[int]string // yield site -> function name
 	PkgID      int
 	UsesSync   bool
+	NoRace     bool // goroutines or channel operations of its own: orderings the race detector does not model
 	UnsimSync  bool // uses synchronisation the simulator does not model (atomic, Once, Cond, WaitGroup, ...)
 	Swagger    *openapi3.Swagger
 	BasePathFlag string
@@ -101,6 +102,15 @@ var ctxType = reflect.TypeOf((*context.Context)(nil)).Elem()
 var handlerType = reflect.TypeOf((*http.Handler)(nil)).Elem()
 
 var Packages []*Pkg
+
+// SetNoRace switches the happens-before race detector off for a package.
+func SetNoRace(name string) {
+	for _, p := range Packages {
+		if p.Name == name {
+			p.NoRace = true
+		}
+	}
+}
 
 func Register(name, importPath, class, spec string, pkgID int, usesSync, unsimSync bool, yieldFuncs map[int]string, reg RegistryFunc) {
 	types, globals, funcs, oneOf := reg()
